@@ -11,6 +11,10 @@ CHECK = {
         # bundle::max_size in 2..4, the sizes that overflowed before the fix of finding F10
         {"exe": "c03_sharp_minimum", "flavour": "plain", "cases": (1000, 20000), "procs": (1, 1),
          "subs": ["bundle-small"], "args": ["--sub", "bundle-small"]},
+        # the corner of the quantifier with the smallest tolerance eps*sqrt(n): n in 1..3, eps = 1e-8 (half) or 1e-8..3e-8,
+        # bundle::max_size = 2 (40 %), 3..4 (20 %) or 5..100: ~10 ms per case
+        {"exe": "c03_sharp_minimum", "flavour": "plain", "cases": (9000, 150000), "procs": (3, 4),
+         "subs": ["bundle-corner"], "args": ["--sub", "bundle-corner"]},
         # ASan share of the bundle solvers (regression guard for F10; ~0.3 s per case there)
         {"exe": "c03_sharp_minimum", "flavour": "asan", "cases": (120, 1500), "procs": (1, 1),
          "subs": ["bundle-asan"], "args": ["--sub", "bundle-asan"]},
@@ -20,7 +24,7 @@ CHECK = {
     "rule": ("f(x) = |A(x-x*)|_1, |A(x-x*)|_inf or their sum, + mu/2|x-x*|^2 + f*, A (m x n, n in 1..8, m in n..2n) = U diag(sigma) V' built from the SVD of a "
              "generated Gaussian matrix with sigma_min = s*required (s in [1.05,3], required = 1, or sqrt(m) for the pure l_inf family so that "
              "f(x)-f* >= |x-x*|_2), condition number in [1,100]; x* in [-3,3]^n, x0 within distance 4 of x*, mu in {0} u (0,10], epsilon in [1e-8,1e-3], "
-             "max_evals in [100,20000] (20000 for half of the ellipsoid cases), bundle::max_size in [2,100], csearch/proximity parameters default / near "
+             "max_evals in [100,20000] (20000 for half of the ellipsoid cases), bundle::max_size in [2,100] (sub 'bundle-corner': n in 1..3, epsilon = 1e-8 or just above, max_size 2 in 40 %), csearch/proximity parameters default / near "
              "default / anywhere in their declared domains / on the boundary, ellipsoid radius = default or 1.05..8 x |x0-x*|. Oracle: the gap f(x)-f* and "
              "|x-x*| recomputed in long double from (A, x*, mu); converged => gap <= 2 eps sqrt(n)(1+|x-x*|) (rqb, fpba1, fpba2) or gap <= 10 eps (ellipsoid); "
              "ellipsoid with n <= 6 and max_evals = 20000 => status converged. The sharpness precondition is re-derived from the singular values of A on every "
